@@ -151,9 +151,13 @@ def structHandler10 : Handler
       (if load == "ok" && g.dialect == .mysql then
         (expectOutcome "FromObjects-dump" (viaReader.map (·.1)) dump).and (expectOutcome "FromObjects-hash" (viaReader.map (·.2)) hash)
        else okV)
-    let r06 : Check := do
+    -- the DDL the builder printed, against the expected schema (also judged for structs with a field of a Go type that
+    -- has no SQL mapping: that field's column is expected with the type UNSPECIFIED / POINTER)
+    let r06ddl : Check := do
       if isPanic ddl then throw s!"AddTable panicked: {ddl}"
       structSpec g exp ddl
+    let r06 : Check := do
+      if isPanic ddl then throw s!"AddTable panicked: {ddl}"
       check (load == "ok") s!"FromObjects does not load the generated DDL: {load}"
       -- what FromObjects loaded (all models of the call), printed back: the foreign keys of this model's table
       if g.dialect == .mysql && !isPanic dump then do
@@ -162,11 +166,12 @@ def structHandler10 : Handler
           | .addFk t n c rt rc => if t == exp.table then some ({ name := n, col := c, refT := rt, refC := rc } : FkSpec) else none
           | _ => none)
         check (permEq got exp.fks) s!"FromObjects loaded the foreign keys {repr got}, expected {repr exp.fks}"
+    let regionDdl := Scope.c06 g d (allowUnsupported := true)
     let r10 : Check := do
       check (toLowerAscii ddl == toLowerAscii ddlFlip) "the two keyword-case options differ by more than ASCII case"
       let q := Grammar.quoteOf g.dialect
       check (quotedSegments q ddl.toList == quotedSegments q ddlFlip.toList) "an identifier, string literal or comment differs between the two keyword-case options"
-    some (corr.and ((judge "C06" (Scope.c06 g d) r06).and (judge "C10" (Scope.c06 g d) r10)))
+    some (corr.and (((judge "C06" regionDdl r06ddl).and (judge "C06" (Scope.c06 g d) r06)).and (judge "C10" (Scope.c06 g d) r10)))
   | _ => none
 
 def structHandler : Handler
